@@ -235,6 +235,11 @@ def run(ctx):
             ctx.violation("shared_detector/detector_modified", {"theory": name, "call": f.__name__, "n": n})
             break
         ctx.trace_ok()
+    if not quick:
+        # the repository's own test-suite under the recorder: Frame and Deterministic on every
+        # public call those tests make (spec/Session.tla)
+        import session
+        session.validate(ctx)
     ctx.exhaustive = not quick
 
 
